@@ -19,7 +19,9 @@ ASSUMPTIONS = [
     'geometry of chunks.__init__/getbounds is not proved; the correspondence run searches for counterexamples (output is canonical, so any '
     'missed link shows up as a different array)',
     'inputs: 2..48 points, RA in [0,360), |Dec| < 90, linklength 1 arcsec .. 20 deg, chunksize None or any positive value (values below 4*linklength are raised by the code)',
-    'pairs whose separation is within 1e-9 (relative) of the linking length are not generated',
+    'pairs whose separation is within 1e-9 (relative) of the linking length are not generated (1e-4 for integer / float32 coordinate arrays)',
+    'coordinate arrays: float64, float32, int64, int32, int16 (whole degrees) and mixtures; 8-bit integer arrays are excluded (RA does not fit; '
+    'numpy wraps dec.max()-dec.min())',
 ]
 
 D2R = math.pi / 180.0
@@ -45,6 +47,10 @@ def start_point(rng, ll, where):
 
 
 def gen_base(rng, fam):
+    if fam == 'dtype':
+        return dtype_case(rng)
+    if fam == 'pole-exact':
+        return pole_exact_case(rng)
     if fam == 'polebound':
         # declination range aimed at the rounding of chunks.__init__'s last declination bound (see harness/props/c04.py)
         c = G.polebound_case(rng)
@@ -120,6 +126,50 @@ def gen_base(rng, fam):
     chunk = None if t < 0.3 else (4.0 * ll if t < 0.6 else ll * rng.choice([4.0, 5.0, 7.0, 12.0, 30.0, 1.0, 2.5]))
     case = {'fam': fam, 'ra': [p[0] for p in pts], 'dec': [p[1] for p in pts], 'linklength': ll, 'chunksize': chunk}
     return limit_cost(case)
+
+
+DTYPES = [('int64', 'int64'), ('int32', 'float64'), ('int64', 'int32'), ('float32', 'float32'), ('float32', 'float64'),
+          ('float64', 'int64'), ('int16', 'int16')]
+
+
+def dtype_case(rng):
+    """whole-degree coordinates passed as integer / float32 / mixed arrays: the answer must be that of the same numbers"""
+    ll = rng.choice([1.5, 2.5, 1.2, 3.5])
+    ra0 = rng.randint(0, 200)
+    dec0 = rng.randint(-60, 40)
+    pts = set()
+    for _ in range(rng.randint(1, 3)):
+        x, y = ra0 + rng.randint(0, 30), dec0 + rng.randint(0, 20)
+        for _ in range(rng.randint(3, 10)):
+            pts.add((x, y))
+            dx, dy = rng.choice([(1, 0), (0, 1), (2, 0), (0, 2), (1, 1), (3, 0), (0, -1), (-1, 0)])
+            x, y = max(0, min(359, x + dx)), max(-80, min(80, y + dy))
+    for _ in range(rng.randint(0, 4)):
+        pts.add((rng.randint(0, 359), rng.randint(-80, 80)))
+    pts = list(pts)
+    rng.shuffle(pts)
+    if len(pts) < 2:
+        pts.append((pts[0][0] + 1, pts[0][1]))
+    dra, ddec = rng.choice(DTYPES)
+    t = rng.random()
+    return {'fam': 'dtype', 'ra': [p[0] for p in pts], 'dec': [p[1] for p in pts], 'linklength': ll,
+            'chunksize': None if t < 0.4 else rng.choice([4 * ll, 10.0, 25.0]), 'dtype': {'ra': dra, 'dec': ddec}}
+
+
+def pole_exact_case(rng):
+    """positions exactly at a pole (dec = +-90.0) together with neighbours inside and outside the linking length"""
+    ll = rng.choice([0.5, 1.0, 2.0, 5.0])
+    s = rng.choice([1.0, 1.0, -1.0])
+    pts = [(rng.random() * 360.0, s * 90.0)]
+    if rng.random() < 0.4:
+        pts.append((rng.random() * 360.0, s * 90.0))
+    for _ in range(rng.randint(1, 5)):
+        pts.append((rng.random() * 360.0, s * (90.0 - ll * rng.choice([0.3, 0.6, 0.9, 1.2, 2.5]))))
+    for _ in range(rng.randint(0, 4)):
+        pts.append(G.sphere_point(rng))
+    rng.shuffle(pts)
+    return {'fam': 'pole-exact', 'ra': [p[0] for p in pts], 'dec': [p[1] for p in pts], 'linklength': ll,
+            'chunksize': rng.choice([None, 4 * ll, 8 * ll])}
 
 
 def G_sep(a, b):
@@ -324,7 +374,7 @@ def run_synthetic(cases):
     return results
 
 
-FAMILIES = ['chain-ra', 'chain-dec', 'chain-diag', 'seam', 'pole', 'joined', 'clusters', 'highdec', 'polebound']
+FAMILIES = ['chain-ra', 'chain-dec', 'chain-diag', 'seam', 'pole', 'joined', 'clusters', 'highdec', 'polebound', 'dtype', 'pole-exact']
 
 HEADER = '''From Coq Require Import ZArith List. Import ListNotations.
 From PV Require Import C05.Model C05.Algo. Open Scope Z_scope.'''
@@ -372,7 +422,7 @@ def py_components(adj, n):
 
 
 def admissible(c):
-    return (len(c['ra']) >= 2 and all(0.0 <= r < 360.0 for r in c['ra']) and all(abs(d) < 90.0 for d in c['dec']))
+    return (len(c['ra']) >= 2 and all(0.0 <= r < 360.0 for r in c['ra']) and all(abs(d) <= 90.0 for d in c['dec']))
 
 
 def run_batch(cases):
@@ -472,7 +522,7 @@ def correspond(ctx, proof_ok=True):
                           {'kind': 'failing-input', 'call': c, 'impl_result': {k: v for k, v in r.items() if k not in ('adj', 'rec')},
                            'meaning': 'the property promises a grouping for every list of two or more positions; the call raised instead'}, True)
             continue
-        if r['nearest_threshold_rel'] is not None and r['nearest_threshold_rel'] <= 1e-9:
+        if r['nearest_threshold_rel'] is not None and r['nearest_threshold_rel'] <= (1e-4 if c.get('dtype') else 1e-9):
             skipped += 1
             continue
         terms.append(case_term(c, r))
@@ -537,12 +587,12 @@ def correspond(ctx, proof_ok=True):
             got = r['ok'][0]
             same_partition = len(set(zip(want, got))) == len(set(want)) == len(set(got))
             what = 'partition' if not same_partition else ('numbering' if want != got else 'lists')
-            sig = 'C05:%s:property' % what
+            sig = 'C05:%s%s:property' % (what, ':point-at-pole' if any(abs(d) == 90.0 for d in c['dec']) else '')
             if sig in seen:
                 continue
             seen.add(sig)
-            ctx.violation(sig, 'spheregroup output differs from (components, lists_of) in its %s (family %s, linklength=%g, chunksize=%s, %d points)' % (
-                what, c['fam'], c['linklength'], c['chunksize'], nn),
+            ctx.violation(sig, 'spheregroup output differs from (components, lists_of) in its %s (family %s, linklength=%g, chunksize=%s, %d points%s)' % (
+                what, c['fam'], c['linklength'], c['chunksize'], nn, ', dtypes %s' % c['dtype'] if c.get('dtype') else ''),
                 {'kind': 'failing-input', 'call': c, 'impl_result': r['ok'], 'expected_ingroup_uncertified': want, 'verdict': v,
                  'rec': {k: x for k, x in (r.get('rec') or {}).items() if k in ('nRa', 'nDec', 'decBounds', 'raOffset', 'minSize')},
                  'meaning': 'verdict bit 2: the four arrays are not equal to C05.Model.spec_output (certified by C05_components_spec / C05_lists_spec); '
